@@ -63,6 +63,19 @@ def gen_reader(items):
         return D('RELOAD_PUBLISHES_CREATED_SEARCHER', v, 'reload: create_searcher(..)? then self.searcher.store(searcher)')
     items.append(publish_after)
 
+    def serialised():
+        body = fn_body(rd, 'reload')
+        g = pos(body, r'let\s+_[A-Za-z0-9_]+\s*=\s*self\s*\.\s*reload_lock\s*\.\s*lock\(\)')
+        c = pos(body, r'Self::create_searcher\(')
+        st = pos(body, r'self\s*\.\s*searcher\s*\.\s*store\(')
+        depth0 = g is not None and (body[:g].count('{') - body[:g].count('}')) == 0
+        stores = len(re.findall(r'self\s*\.\s*searcher\s*\.\s*store\(', body))
+        uncond = st is not None and (body[:st].count('{') - body[:st].count('}')) == 0
+        v = 1 if (g is not None and c is not None and st is not None and g < c < st and depth0 and stores == 1 and uncond) else 0
+        return D('RELOAD_MUTEX_COVERS_LOAD_AND_STORE', v,
+                 'reload: named guard of reload_lock bound in the outermost block before create_searcher(..) and the single unconditional searcher.store(..)')
+    items.append(serialised)
+
     def snapshot():
         body = fn_body(rd, 'searcher')
         v = 1 if re.search(r'self\s*\.\s*searcher\s*\.\s*load\(\)\s*\.\s*clone\(\)\s*\.\s*into\(\)', body) else 0
